@@ -31,6 +31,12 @@ def _run_standin(script, args, timeout=1800):
 def replay_printer(ob):
     rp = ob.get('replay') or {}
     name = ob['name']
+    if '/L4/' in name:
+        for script, args in (('stmt_layout.py', []), ('enum_print.py', ['--depth', '2'])):
+            r = run_standin(script, args)
+            if r.get('n_failures'):
+                return {'reproduced': True, 'input': r['failures'][:4]}
+        return {'reproduced': None, 'note': 'neither the statement-layout pairs nor the depth-2 enumeration fail', 'detail': r.get('error')}
     if 'is_curly' in name:
         r = run_standin('fstring_curly.py', ['--depth', '2'])
         if r.get('n_failures'):
